@@ -33,8 +33,9 @@ def gen_spec(rng, family='affine'):
     shared_k = rng.random() < 0.5
     for ci in range(nch):
         nb = rng.choice([1, 2, 3, 4, 5])
-        nsamp = rng.choice([2, 2, 3])
-        kinds = ['sig'] + [rng.choice(['shapesys', 'staterror', 'normfactor', 'shapefactor', 'plain']) for _ in range(nsamp - 2)]
+        nsamp = 3 if family == 'product' else rng.choice([2, 2, 3])
+        kinds = ['sig'] + [rng.choice(['shapesys', 'staterror', 'plain'] if family == 'product' else ['shapesys', 'staterror', 'normfactor', 'shapefactor', 'plain'])
+                           for _ in range(nsamp - 2)]
         kinds.append(rng.choice(['shapesys', 'staterror', 'plain', 'shapesys']))
         if ci > 0 and rng.random() < 0.3:
             kinds[0] = rng.choice(['shapesys', 'normfactor'])      # a control region without signal
@@ -59,7 +60,7 @@ def gen_spec(rng, family='affine'):
             elif kind == 'staterror':
                 mods.append({'name': 'stat_%d' % ci, 'type': 'staterror',
                              'data': [round(v * rng.uniform(0.02, 0.3), 3) or 0.25 for v in nom]})
-            if family == 'product' and kind in ('shapesys', 'staterror', 'plain') and si < len(kinds) - 1 and rng.random() < 0.7:
+            if family == 'product' and kind in ('shapesys', 'staterror', 'plain') and si < len(kinds) - 1 and (ci == 0 or rng.random() < 0.7):
                 mods.append({'name': 'mu' if rng.random() < 0.3 else 'nf_%d_%d' % (ci, si), 'type': 'normfactor', 'data': None})
             samples.append({'name': 's%d_%d' % (ci, si), 'data': nom, 'modifiers': mods})
         chans.append({'name': 'ch%d' % ci, 'samples': samples})
@@ -504,7 +505,7 @@ def counting_problem(rng, idx):
 
 def pub(prob):
     """json-able view of a problem (without the compiled model)"""
-    return {k: v for k, v in prob.items() if k != 'cm'}
+    return {k: v for k, v in prob.items() if k != 'cm' and not k.startswith('_')}
 
 
 # ----------------------------------------------------------------------------------------------
@@ -591,6 +592,7 @@ def run(ctx):
         pyhf.set_backend('numpy')
         p['cm'] = compile_model(p['spec'], pyhf.Model(copy.deepcopy(p['spec']), poi_name='mu'))
         p['_corpus_cfg'] = [tuple(body['config'])]
+        p['_corpus'] = True
         problems.append(p)
     na, npr, nc = ctx.n(36, 400), ctx.n(8, 80), ctx.n(8, 60)
     problems += [make_problem(rng, 'affine', i, small=ctx.quick or i % 4 != 0) for i in range(na)]
@@ -599,13 +601,33 @@ def run(ctx):
     # the float32 sweep: a fixed-POI fit at values that are not float32 numbers on every backend
     for i, be in enumerate(BACKENDS):
         p = make_problem(rng, 'affine', 1000 + i, small=True)
+        while p['npars'] < 3:
+            p = make_problem(rng, 'affine', 1000 + i, small=True)
         p['kind'], p['poi_val'] = 'fixed_poi', 0.1
         p['bounds'][p['poi_index']] = [0.0, 10.0]
         j = next((k for k in range(p['npars']) if k != p['poi_index']), None)
         if j is not None and p['npars'] > 2:
             p['mask'][j] = True
             p['init'][j] = min(max(1.3, p['bounds'][j][0]), p['bounds'][j][1])
+        em = eff_mask(p)
+        if all(em):                                  # keep the problem well-posed: something must be left to fit
+            for q_ in range(p['npars']):
+                if q_ != p['poi_index'] and q_ != j:
+                    p['mask'][q_] = False
+                    break
+            else:
+                p['mask'][j] = False
         p['_corpus_cfg'] = [(be, 'minuit', False, True), (be, 'scipy', be != 'numpy', True)] + ([('numpy', 'scipy', False, False)] if be != 'numpy' else [])
+        problems.append(p)
+    for i in range(ctx.n(4, 20)):          # starting points outside the bounds must be refused before any optimiser runs
+        p = make_problem(rng, 'affine', 2000 + i, small=True)
+        j = rng.randrange(p['npars'])
+        if p['kind'] == 'fixed_poi' and rng.random() < 0.5:
+            p['poi_val'] = p['bounds'][p['poi_index']][1] + 0.5
+        else:
+            p['init'][j] = p['bounds'][j][1] + rng.choice([0.25, 1e-9]) if rng.random() < 0.5 else p['bounds'][j][0] - 0.125
+        p['_corpus_cfg'] = [('numpy', rng.choice(['scipy', 'minuit']), False, rng.random() < 0.5)]
+        p['expect_error'] = True
         problems.append(p)
     ctx.log('generated %d problems' % len(problems))
 
@@ -645,7 +667,7 @@ def run(ctx):
             exprs.append(expr_fit(prob, rec)); owner.append((ri, 'fit'))
             exprs.append(expr_fit_cert(prob, rec['x'], witness[k])); owner.append((ri, 'cert'))
             rec['witness'] = witness[k]
-        elif rec['status'] == 'PyValueError':
+        elif rec['status'] == 'PyValueError' and rec.get('msg', '').startswith('fit initialization parameter'):
             exprs.append(expr_validate(prob)); owner.append((ri, 'val'))
     results = {}
     try:
@@ -672,12 +694,17 @@ def run(ctx):
     for ri, (k, rec) in enumerate(runs):
         prob = problems[k]
         be, optn = rec['backend'], rec['optimizer']
-        if rec['status'] == 'PyValueError':
+        if rec['status'] == 'PyValueError' and rec.get('msg', '').startswith('fit initialization parameter'):
             stats['validation_errors'] += 1
             mo = results.get((ri, 'val'))
-            if mo is not None and mo[0] != 1:
-                disagree.append((ri, 'impl raised ValueError, model code %r' % (mo[0],)))
+            if mo is not None:
+                import re as _re
+                m_ = _re.search(r'index: (\d+)', rec.get('msg', ''))
+                if mo[0] != 1 or m_ is None or int(m_.group(1)) != mo[1]:
+                    disagree.append((ri, 'impl raised ValueError (%s), model gives code %r index %r' % (rec.get('msg', '')[:60], mo[0], mo[1])))
             continue
+        if prob.get('expect_error') and rec['status'] == 'ok':
+            disagree.append((ri, 'a starting value outside its bounds was accepted (model: ValueError)'))
         if rec['status'] != 'ok':
             if prob['family'] == 'counting' and not (rec['status'] == 'PyAttributeError' and optn == 'scipy' and not rec['do_grad']):
                 ctx.violation('closed-form-fit-failed:%s' % optn, 'fit of a one-bin counting model did not succeed (%s: %s)' % (rec['status'], rec.get('msg')),
@@ -752,7 +779,7 @@ def run(ctx):
                 rec['cert2'] = float(cert2)
                 rec['witness_residual2'] = float(2 * epsw)
                 stats['certified'] += 1
-                stats['eligible'][optn] += 1
+                stats['eligible'][optn] += 0 if prob.get('_corpus') else 1
                 if cert2 <= Fraction(BUDGET[optn]):
                     stats['max_cert'][optn] = max(stats['max_cert'][optn], float(cert2))
                     distinct.add(json.dumps([prob['id'], be, optn, rec['do_grad'], rec['do_stitch']]))
@@ -765,7 +792,8 @@ def run(ctx):
         if not ms:
             continue
         stats['misses'][optn] = len(ms)
-        systematic = len(ms) > max(1, 0.05 * stats['eligible'][optn])
+        fresh = [m for m in ms if not problems[runs[m[0]][0]].get('_corpus')]        # corpus entries are the recorded stalls
+        systematic = len(fresh) > max(1, 0.05 * stats['eligible'][optn])
         for ri, c2 in sorted(ms, key=lambda t: -t[1])[:5]:
             k, rec = runs[ri]
             prob = problems[k]
@@ -808,6 +836,8 @@ def run(ctx):
             ctx.violation('inputs-mutated', 'fit modified the init_pars / fixed_params lists of the caller', replay_body(problems[k], rec))
             found = True
 
+    found = bool(ctx.violations)
+    stats['disagreement_list'] = [d[1][:200] for d in disagree[:5]]
     if disagree and not found:
         tie = tie or ('wrapper model and implementation disagree on %d fits (first: %s)' % (len(disagree), disagree[0][1]))
         ri = disagree[0][0]
